@@ -5,7 +5,7 @@ import vlib
 from vlib import coq_list, coq_bool
 from fam import match as M
 
-PROTOS = ["redis", "http", "http2", "kafka"]
+PROTOS = ["redis", "http", "http2", "kafka", "amqp"]
 
 
 def site_class(site):
@@ -91,7 +91,7 @@ def run(ctx):
                 res = r["res"]
                 got = [(i["conn"], i["req"], i["resp"]) for i in res["items"] or []]
                 got_res = M.parse_residue(proto, res["residue"])
-                if proto in ("http2", "kafka"):     # stream / correlation id 2j+1 of the j-th message <-> counter j+1
+                if proto in ("http2", "kafka", "amqp"):     # stream / correlation / channel id 2j+1 of the j-th message <-> counter j+1
                     got_res = {(c, (k + 1) // 2, d, p) for c, k, d, p in got_res}
                 tr = model_trace(r["steps"], names)
                 ctx.count_case((proto, str(cfg), tuple(tr)), True, proto)
@@ -139,7 +139,7 @@ def run(ctx):
     iters = 3000 if ctx.tier == "quick" else 40000
     if "Match/MatcherTie.v" in failed:
         iters *= 10
-    for proto in ("redis", "http", "http2"):
+    for proto in ("redis", "http", "http2", "amqp"):
         rc, out = ctx.vh("vh-match", ["stress", proto, str(iters), "3"], timeout=1800)
         try:
             o = json.loads(out.strip().split("\n")[-1])
